@@ -58,3 +58,37 @@ pub fn unsplit(lexemes: &[String]) -> String {
     }
     s
 }
+
+/// one or two representatives of every Unicode class a lexer could treat specially
+pub const UNICODE_CLASSES: &[&str] = &[
+    // white space that is not ASCII blank / tab, and look-alikes that are not white space
+    "\u{a0}", "\u{2003}", "\u{2028}", "\u{85}", "\u{b}", "\u{c}", "\r", "\t", "\u{3000}", "\u{feff}", "\u{200b}",
+    // digits and numerals outside ASCII (decimal, other, letter-like)
+    "٣", "²", "½", "Ⅷ", "①",
+    // letters whose case mappings change their UTF-8 length or their number of characters, title-case, caseless
+    "İ", "ß", "ŉ", "ǰ", "ẞ", "\u{212a}", "\u{212b}", "Ω", "Ⱥ", "ﬁ", "ǅ", "中", "א", "é",
+    // combining marks, joiners, symbols, astral characters
+    "\u{301}", "\u{308}", "\u{200d}", "€", "😀", "\u{1f1e9}",
+    // typographic apostrophes and quotes
+    "’", "‘", "“", "”", "«",
+];
+
+/// the Unicode classes in every lexical position, alone and in pairs
+pub fn unicode_texts() -> Vec<String> {
+    const TEMPLATES: &[&str] = &[
+        "x@# is 5\n", "@x#'s 5\n", "say x@#y\n", "the @# is 5\n", "X@ Y# is 5\n", "x is a@ b#c. d\n", "say \"@\"#'s 5\n", "x@'re# 5\n", "(@)# x\n",
+        "say 1@2#\n", "say x@at#0\n", "x says @#\n", "say@x#\n", "x@y takes z#\nsay z#\n\n", "put@1#into x\n", "@\n#\nsay 1\n", "say 1 @(c)# 2\n", "x is@5#\n",
+        "if x@\nsay 1#\n\n", "say x at@\"k#\"\n",
+    ];
+    let mut v = Vec::new();
+    for t in TEMPLATES {
+        for a in UNICODE_CLASSES {
+            v.push(t.replace('@', a).replace('#', ""));
+            v.push(t.replace('@', "").replace('#', a));
+            for b in UNICODE_CLASSES {
+                v.push(t.replace('@', a).replace('#', b));
+            }
+        }
+    }
+    v
+}
